@@ -467,3 +467,15 @@ class stripws_default_nf:
 
 
 REG.add('sqlparse.filters.others.StripWhitespaceFilter._stripws_default', 'normal form', stripws_default_nf)
+
+
+# --------------------------------------------------------------------------------- _process_case on the CASE shapes (C06/C07)
+
+from contracts.sql import make_case_shape  # noqa: E402
+
+CASE_LAYOUT_CASES = []
+for _nw, _we in ((1, False), (1, True), (2, True)):
+    _case = 'shape: %d WHEN%s' % (_nw, ' + ELSE' if _we else '')
+    _site_contract(_AF + '_process_case', {'self': make_aligned, 'tlist': make_case_shape(_nw, _we)}, case=_case,
+                   serves=('C06', 'C07'))
+    CASE_LAYOUT_CASES.append((_AF + '_process_case', _case))
